@@ -22,11 +22,11 @@ ASSUMPTIONS = [
     "delivered frames whose payload is shorter than 2 bytes (3 for 4076) are ignored: the property does not speak of them",
     "termination is decided on logical steps (read/recv calls <= 3*len+16), never on wall-clock",
 ]
-GATES = ["frames_compared", "runs_with_pauses", "iteration_resumed_after_pause", "backend:file", "backend:buffered", "backend:socket", "kind:len0", "kind:len1023",
+GATES = ["frames_compared", "runs_with_pauses", "iteration_resumed_after_pause", "socket_runs_chunked", "backend:file", "backend:buffered", "backend:socket", "kind:len0", "kind:len1023",
          "kind:len1", "kind:len2-4076", "kind:ubxbig"]
 
 KINDS = ("defined", "defined", "defined", "unknown", "unknown", "len0", "len1", "len2", "len2-4076", "len255",
-         "len256", "len1022", "len1023", "defmax")
+         "len256", "len1022", "len1023", "defmax", "steered", "steered")
 
 
 def make_items(rng, n=None, adversarial=None):
@@ -121,7 +121,25 @@ def run_case(ctx, items, backend, mode, bparam):
             for off in sorted(set(pauses)):
                 sizes += [off - prev, "T"]
                 prev = off
-        sock = doubles.ScriptedSocket(data, sizes, budget=budget)
+        wire = data
+        if bparam.get("chunked"):
+            # the same bytes over HTTP chunked transfer-encoding (optionally compressed per chunk): chunk bodies end
+            # at the item boundaries in `chunked` (so bodies end in CR LF, in checksum bytes, ...) and are cut again
+            # every 700 bytes
+            from vf import refchunk
+
+            bodies, prev = [], 0
+            for off in sorted(set(bparam["chunked"])) + [len(data)]:
+                while off - prev > 700:
+                    bodies.append(data[prev:prev + 700])
+                    prev += 700
+                if off > prev:
+                    bodies.append(data[prev:off])
+                    prev = off
+            wire, _ = refchunk.encode(bodies, bool(len(data) & 1), True, bparam.get("how"), 0)
+            ctx.hit("socket_runs_chunked")
+            budget = 4 * len(wire) + 64
+        sock = doubles.ScriptedSocket(wire, sizes, budget=budget)
         stream = sock
         counter = None
     if pauses:
@@ -138,8 +156,11 @@ def run_case(ctx, items, backend, mode, bparam):
     stopped = False
     problem = None
     try:
+        from vf.checks import c12
+
         rdr = RTCMReader(stream, validate=1, quitonerror=mode, bufsize=bparam.get("bufsize", 4096),
-                         errorhandler=(lambda e: None))
+                         errorhandler=(lambda e: None),
+                         encoding=c12.ENC[bparam.get("how")] if bparam.get("chunked") else 0)
         if mode in (0, 1):
             try:
                 rounds = 0
@@ -259,8 +280,12 @@ def backend_param(rng, backend, total, bounds=()):
     else:
         sizes = [rng.choice((1, 2, 3, 5, 6, 7, 30, 100, 1029, 4096)) for _ in range(rng.randint(1, 60))]
     out = {"sizes": sizes, "bufsize": rng.choice((1, 2, 3, 7, 64, 512, 4096, 65536))}
-    if bounds and rng.random() < 0.3:
+    k = rng.random()
+    if bounds and k < 0.3:
         out["pauses"] = sorted(rng.sample(list(bounds), rng.randint(1, min(3, len(bounds)))))
+    elif bounds and k < 0.5:
+        out["chunked"] = sorted(rng.sample(list(bounds), rng.randint(1, min(6, len(bounds)))))
+        out["how"] = rng.choice((None, None, "gzip", "zlib", "deflate"))
     return out
 
 
